@@ -145,6 +145,22 @@ def r16_2b(ctx: Ctx, rule="R16.2"):
                    ok, "an ordinary line is appended, unchanged, to the header list before the first section and to the "
                    "current section afterwards", node=lp)
     ctx.floor(rule, n, 3, "paths of the reader loop")
+    # the current section changes only at a `[ name ]` line: any other assignment to it inside the loop (a reset at a
+    # preprocessor line, say) files the lines that follow under another section
+    if cur:
+        pm_ = parents_map(lp)
+        for s_ in walk_no_nested(lp):
+            if isinstance(s_, ast.Assign) and any(isinstance(t_, ast.Name) and t_.id == cur for t_ in s_.targets):
+                gs_ = guards_of(s_, pm_)
+                under_header = any(isinstance(t_, ast.Call) and "match" in norm(t_.func) and "\\[" in norm(t_) and pol_
+                                   for t0_, pol_ in gs_ for t_ in [t0_.operand if isinstance(t0_, ast.UnaryOp) else t0_]
+                                   if not isinstance(t0_, ast.UnaryOp)) or \
+                    any(isinstance(t0_, ast.UnaryOp) and isinstance(t0_.operand, ast.Call) and "match" in norm(t0_.operand.func)
+                        and "\\[" in norm(t0_.operand) and not pol_ for t0_, pol_ in gs_)
+                ctx.ob(rule, init, s_, under_header,
+                       "the current section is changed only by a section-header line" + ("" if under_header else
+                       " -- `%s` changes it on another kind of line: the lines that follow are filed under the wrong section" % norm(s_)),
+                       node=s_)
     # the header list exists from the start and is the first key
     ctx.ob(rule, init, "header list initialised", bool(pfind(init.node, "self['header'] = []")) and bool(pfind(init.node, "%s = None" % cur)) if cur else False,
            "the file object starts with an empty header list and no current section", node=init.node)
